@@ -42,6 +42,10 @@ fn check_history(lines: &[Line], rec: &mut Rec) -> Verdict {
     let mut ps_view = STD.new_parser();
     // bytes the no-allocator parser holds for its open group, tracked from its own results
     let mut held = 0usize;
+    // set when a fragment of the open group was refused for capacity; until the no-allocator parser
+    // accepts a new first fragment it may keep the group (as if the line had never arrived) or give it
+    // up - either way it must never hand out something the std build would not
+    let mut tainted = false;
     let mut notes = Vec::new();
     let mut cap_events = 0;
     for (i, l) in lines.iter().enumerate() {
@@ -89,6 +93,9 @@ fn check_history(lines: &[Line], rec: &mut Rec) -> Verdict {
             if notes.len() < 8 {
                 notes.push(format!("[{}] over capacity -> none: {}", i, crate::util::clip(&on.brief(), 60)));
             }
+            if fields.as_ref().map(|f| f.num_fragments != 1).unwrap_or(false) {
+                tainted = true;
+            }
             continue;
         }
         let ov = ps_view.parse(&l.bytes, l.decode);
@@ -134,6 +141,17 @@ fn check_history(lines: &[Line], rec: &mut Rec) -> Verdict {
                     );
                 }
             }
+            continue;
+        }
+        if let Some(f) = &fields {
+            if f.fragment_number == 1 && f.fragment_number < f.num_fragments && matches!(on, Outcome::Incomplete(_)) {
+                tainted = false; // a new group: both parsers start afresh
+            }
+        }
+        if tainted && on.is_err() && fields.as_ref().map(|f| f.num_fragments != 1 && f.fragment_number != 1).unwrap_or(false) {
+            // a continuation of the group that lost a fragment to the capacity limit: rejecting it is
+            // within "rejects inputs exceeding its fixed capacities"
+            rec.class("continuation-of-a-capacity-hit-group-rejected");
             continue;
         }
         if ov.canon() != on.canon() {
